@@ -115,7 +115,7 @@ def generate(streams, tier):
                 "hill_climb", "pc", "write_bif", "write_xmlbif", "write_uai", "write_net", "to_markov", "to_junction", "mn_convert",
                 "forward_sample", "rejection_sample", "lw_sample", "predict", "causal_query", "state_prob", "do", "gibbs", "simulate",
                 "tree_search", "exhaustive", "em", "fit_update", "get_random_cpds", "copy", "mn_ve_query", "mn_bp_query", "fg_bp_query", "jt_bp_query",
-                "mn_map", "elimination_order", "markov_blanket_etc"]
+                "mn_map", "elimination_order", "markov_blanket_etc", "fg_mp_query", "fg_mp_query"]
         ops = []
         ref = RefJoint.from_bn(world)
         core_calls = ["ve_query", "ve_map", "bp_query", "bp_map", "simulate", "causal_query", "predict"]
@@ -489,6 +489,40 @@ def _purity_call(name, op, world, names, model, df, q, ev, virt, args, ctx):
         if name == "mn_map":
             return lambda: VariableElimination(target).map_query(list(qq), evidence=ev_arg, show_progress=False)
         return lambda: BeliefPropagation(target).query(list(qq), evidence=ev_arg, joint=opt % 2 == 0, show_progress=False)
+    if name == "fg_mp_query":
+        # the message-passing engine for loop-free factor graphs: factors (also unnormalised unary ones) and virtual-evidence
+        # objects must come out of a query as they went in
+        from ..refmodel import has_undirected_cycle
+        from pgmpy.factors.discrete import TabularCPD
+        from pgmpy.inference.ExactInference import BeliefPropagationWithMessagePassing
+        from pgmpy.models import FactorGraph
+
+        edges_ = [(p, v) for v in range(world["n"]) for p in world["parents"][v]]
+        if has_undirected_cycle(range(world["n"]), edges_):
+            return None
+        fs = [c.to_factor() for c in model.get_cpds()]
+        for f in fs:
+            if len(f.variables) == 1:
+                f.values = f.values * (2 + opt % 5)  # an unnormalised prior: potentials are defined up to a constant
+        target = FactorGraph()
+        target.add_nodes_from([L(v) for v in range(world["n"])])
+        for f in fs:
+            target.add_node(f)
+            target.add_edges_from([(x, f) for x in f.variables])
+        target.add_factors(*fs)
+        args["undirected_model"] = (target, lambda g: {"factors": snapshot_factor_list(g.factors), "n_nodes": g.number_of_nodes(), "n_edges": g.number_of_edges()})
+        ev_no = {L(v): int(s_) for v, s_ in ev.items()} or None
+        kw = {}
+        free = [v for v in range(world["n"]) if v not in ev and v not in q]
+        if free and opt % 2 == 0:
+            v = free[opt % len(free)]
+            lik = [[float(1 + (opt + j) % 4) * 3.0] for j in range(world["card"][v])]
+            skw = {"state_names": {L(v): list(names.states[v])}} if world["states"][v] is not None else {}
+            vobjs = [TabularCPD(L(v), world["card"][v], lik, **skw)]
+            args["virtual_evidence"] = (vobjs, snapshot_factor_list)
+            kw["virtual_evidence"] = vobjs
+        ctx.probe("message_passing_engine")
+        return lambda: BeliefPropagationWithMessagePassing(target).query(list(qq), evidence=ev_no, **kw)
     if name == "elimination_order":
         from pgmpy.inference.EliminationOrder import MinFill, MinNeighbors, MinWeight, WeightedMinFill
 
